@@ -113,3 +113,69 @@ func VP_C02_Commit() {
 	zzvp.Assert(vpFsck() == "", "the repository is connected after commit")
 	zzvp.Done()
 }
+
+// VP_C02_Branches: a commit made on a branch that was just switched to, created or renamed, in the presence of other
+// branches with free (case-mixed) names, extends exactly the branch HEAD names; every other branch keeps its commit.
+func VP_C02_Branches() {
+	vpInitRepo()
+	w, g := zzvp.Root(), vpG()
+	zzvp.WriteFile(w+"/f", []byte("1"))
+	vpOK(zzvp.Run("add", "f"))
+	vpOK(zzvp.Run("commit", "-m", "base"))
+	base, _, _ := vpBranch("main")
+	const alpha = "a-zA-Z0-9_."
+	nl := zzvp.Param("namelen", 1)
+	var names []string
+	for i := 0; i < 1+zzvp.Choose(zzvp.Param("branches", 2)); i++ {
+		n := zzvp.Str("b"+string(rune('0'+i)), 1+zzvp.Choose(nl), alpha)
+		zzvp.Assume(n != "." && n != ".." && n != "main")
+		for _, o := range names {
+			zzvp.Assume(o != n)
+		}
+		vpOK(zzvp.Run("branch", n))
+		names = append(names, n)
+	}
+	cur := "main"
+	switch zzvp.Choose(4) {
+	case 1:
+		cur = names[zzvp.Choose(len(names))]
+		vpOK(zzvp.Run("switch", cur))
+	case 2, 3:
+		n := zzvp.Str("nw", 1+zzvp.Choose(nl), alpha)
+		zzvp.Assume(n != "." && n != ".." && n != "main")
+		for _, o := range names {
+			zzvp.Assume(o != n)
+		}
+		if zzvp.Choose(2) == 0 {
+			vpOK(zzvp.Run("switch", "-c", n))
+		} else {
+			vpOK(zzvp.Run("branch", "-r", n))
+		}
+		cur = n
+	}
+	before := vpReadRefs()
+	zzvp.Assert(before.head == cur, "HEAD names the branch that was switched to, created or renamed")
+	zzvp.WriteFile(w+"/f", []byte("2"))
+	vpOK(zzvp.Run("add", "f"))
+	r := zzvp.Run("commit", "-m", "next")
+	zzvp.Assert(r.Exit == 0, "commit succeeds when something is staged")
+	if r.Exit != 0 {
+		return
+	}
+	after := vpReadRefs()
+	tip, found := after.get(cur)
+	zzvp.Assert(found && after.head == cur && len(after.names) == len(before.names), "HEAD still names the same branch and no branch appears or disappears")
+	_, data, ok := vpReadObject(g, []byte(tip))
+	c := vpParseCommit(data)
+	zzvp.Assert(ok && c.ok && tip != string(base) && len(c.parents) == 1 && string(c.parents[0]) == string(base), "the current branch now names a new commit whose only parent is its previous commit")
+	moved := false
+	for i, n := range before.names {
+		id, _ := after.get(n)
+		if n != cur && id != before.ids[i] {
+			moved = true
+		}
+	}
+	zzvp.Assert(!moved, "no other branch moves")
+	zzvp.Assert(vpFsck() == "", "the repository is connected after commit")
+	zzvp.Done()
+}
